@@ -50,6 +50,11 @@ def blocks(depth, rnd=None, cap=None):
         out.append(["try:"] + ind(b) + ["except E:", "    pass"])
         out.append(["try:"] + ind(b) + ["finally:", "    obs(6)"])
         out.append(["try:"] + ind(b) + ["except E:", "    raise"])
+        # exits that sit only in a handler / else / finally clause of a try statement
+        for ex in ("break", "continue", "return 2"):
+            out.append(["try:"] + ind(b) + ["except E:", f"    {ex}"])
+        out.append(["try:"] + ind(b) + ["except E:", "    pass", "else:", "    break"])
+        out.append(["try:"] + ind(b) + ["finally:", "    break"])
     return out
 
 
